@@ -203,10 +203,12 @@ inductive MatchRes
   | strict      -- a strict error message
   deriving DecidableEq, Repr, Inhabited
 
-/-- `params_to_check` with the conditional append. -/
+/-- `params_to_check` with the conditional append, then `min_duration` and `phase_jump_time`
+(the repair of F5). -/
 def paramsToCheck (old new : ChanCfg) : List String :=
   ["mod_bandwidth", "fixed_retarget_t", "clock_period"] ++
-    (if checkRetarget old || checkRetarget new then ["min_retarget_interval"] else [])
+    (if checkRetarget old || checkRetarget new then ["min_retarget_interval"] else []) ++
+    ["min_duration", "phase_jump_time"]
 
 /-- `check_channels_match` for a non-parametrized sequence, in statement order (each comparison
 written through `get`, old channel first). -/
@@ -223,6 +225,12 @@ def checkChannelsMatch (old new : ChanCfg) (eomActive strict : Bool) : MatchRes 
 /-- All parameters `checkChannelsMatch` can compare when `strict`, in source order (pinned against
 the generated table). -/
 def modelStrictParams : List String :=
+  ["type", "basis", "addressing", "eom_config", "eom_config.mod_bandwidth", "mod_bandwidth",
+   "fixed_retarget_t", "clock_period", "min_retarget_interval", "min_duration", "phase_jump_time"]
+
+/-- The strict comparison as it was before the repair of F5 (frozen copy of the table then
+generated from `_switch_device.py`). -/
+def oldStrictParams : List String :=
   ["type", "basis", "addressing", "eom_config", "eom_config.mod_bandwidth", "mod_bandwidth",
    "fixed_retarget_t", "clock_period", "min_retarget_interval"]
 
@@ -266,11 +274,19 @@ inductive SwitchErr
   | allFailed               -- every candidate matching raised a ValueError or changed the EOM samples
   deriving DecidableEq, Repr, Inhabited
 
-/-- The call with its channel argument switched (`sw_channel_args` / `sw_channel_kw_args`).  Only
-`declare_channel`, `config_detuning_map` (`config_slm_mask`) and `add_dmm_detuning` are rewritten:
-any other call that names a DMM channel keeps the *old* name. -/
-def renameOp (r : ReplaySt) (op : Op) : Except SwitchErr (ReplaySt × Op) :=
+/-- `channel_match[arg] if arg in dmm_calls else arg`: a DMM channel declared so far follows its new
+name. -/
+def renameDmm (r : ReplaySt) (n : ChName) : ChName :=
+  if r.dmmCalls.contains n then (r.dmmNames.lookup n).getD n else n
+
+/-- The call with its channel argument switched (`sw_channel_args` / `sw_channel_kw_args`):
+`declare_channel`, `config_detuning_map` (`config_slm_mask`), `add_dmm_detuning`, and — since the
+repair of F18r (/repo) — `delay` and `align`, the other calls that can name a DMM channel.
+`legacy = true` is the replay before that repair: `delay` / `align` keep the *old* name. -/
+def renameOp (legacy : Bool) (r : ReplaySt) (op : Op) : Except SwitchErr (ReplaySt × Op) :=
   match op with
+  | .delay d n atRest => .ok (r, .delay d (if legacy then n else renameDmm r n) atRest)
+  | .align chs atRest => .ok (r, .align (if legacy then chs else chs.map (renameDmm r)) atRest)
   | .declare name _ init =>
     match r.ids.lookup name with
     | some (.chan i) => .ok (r, .declare name i init)
@@ -299,17 +315,17 @@ def copyOracles (old new : List ChanState) : List ChanState :=
     | none => c
 
 /-- The replay loop: `getattr(new_seq, call.name)(*args, **kwargs)` for every stored call. -/
-def replayCalls (old : SeqState) : ReplaySt → List Op → Except SwitchErr ReplaySt
+def replayCalls (legacy : Bool) (old : SeqState) : ReplaySt → List Op → Except SwitchErr ReplaySt
   | r, [] => .ok r
   | r, op :: rest =>
-    match renameOp r op with
+    match renameOp legacy r op with
     | .error e => .error e
     | .ok (r1, op') =>
       let raw := stepRaw r1.seq op'
       match raw.err with
       | some e => .error (.replay e)
       | none =>
-        replayCalls old { r1 with seq := { raw.st with chans := copyOracles old.chans raw.st.chans } } rest
+        replayCalls legacy old { r1 with seq := { raw.st with chans := copyOracles old.chans raw.st.chans } } rest
 
 /-- Exceptions that are `ValueError`s in the Python (the replay loop catches exactly these and
 tries the next matching); the others (`RuntimeError`, `TypeError`) leave `switch_device`. -/
@@ -321,9 +337,9 @@ def isValueError : Err → Bool
 
 /-- `build_sequence_from_matching`.  `samplesClose` stands for the float comparison
 (`np.isclose` on `amp`, `det`, `phase`) of the samples of one EOM channel. -/
-def buildFromMatching (samplesClose : ChanState → ChanState → Bool) (s : SeqState) (newDev : Device)
+def buildFromMatching (legacy : Bool) (samplesClose : ChanState → ChanState → Bool) (s : SeqState) (newDev : Device)
     (strict : Bool) (m : List (ChName × NewId)) : Except SwitchErr SeqState :=
-  match replayCalls s { seq := SeqState.init newDev s.nQ, ids := m } s.calls with
+  match replayCalls legacy s { seq := SeqState.init newDev s.nQ, ids := m } s.calls with
   | .error e => .error e
   | .ok r =>
     if strict &&
@@ -335,22 +351,22 @@ def buildFromMatching (samplesClose : ChanState → ChanState → Bool) (s : Seq
     else .ok r.seq
 
 /-- The loop over the candidate matchings. -/
-def tryMatches (samplesClose : ChanState → ChanState → Bool) (s : SeqState) (newDev : Device)
+def tryMatches (legacy : Bool) (samplesClose : ChanState → ChanState → Bool) (s : SeqState) (newDev : Device)
     (strict : Bool) : List (List (ChName × NewId)) → Except SwitchErr SeqState
   | [] => .error .allFailed
   | m :: rest =>
-    match buildFromMatching samplesClose s newDev strict m with
+    match buildFromMatching legacy samplesClose s newDev strict m with
     | .ok s' => .ok s'
     | .error (.replay e) =>
-      if isValueError e then tryMatches samplesClose s newDev strict rest else .error (.replay e)
+      if isValueError e then tryMatches legacy samplesClose s newDev strict rest else .error (.replay e)
     | .error e => .error e
 
 /-- `switch_device` (after the identical-device shortcut and the device-level checks). -/
 def switchDevice (samplesClose : ChanState → ChanState → Bool) (s : SeqState) (newDev : Device)
-    (strict : Bool) : Except SwitchErr SeqState :=
+    (strict : Bool) (legacy : Bool := false) : Except SwitchErr SeqState :=
   match possibleMatches s newDev strict with
   | [] => .error .noMatch
-  | ms => tryMatches samplesClose s newDev strict ms
+  | ms => tryMatches legacy samplesClose s newDev strict ms
 
 /-- `Sequence.switch_register` to a register with `nQ'` atoms (the scheduler never reads
 coordinates): the call log replayed on the same device. -/
